@@ -452,7 +452,10 @@ func (r *run) deploy(step int, n int, regime string, st mbt.Step) bool {
 	hooks.mu.Lock()
 	hooks.regime = regime
 	hooks.mu.Unlock()
-	if r.cur != nil {
+	// InPlace: a deploy to the same number of operators re-deploys the running operators themselves (same Operator
+	// objects, same ids, same storage directories), as jobs.Job does when it re-assembles with surviving workers
+	inPlace := r.in.CfgBool("InPlace", false) && r.cur != nil && r.cur.n == n
+	if r.cur != nil && !inPlace {
 		for _, nd := range r.cur.nodes {
 			nd.op.Halt()
 			nd.cancel()
@@ -467,7 +470,15 @@ func (r *run) deploy(step int, n int, regime string, st mbt.Step) bool {
 	g := &generation{n: n, job: &opkit.JobRec{}, ks: partitioning.NewKeySpace(r.count, n)}
 	byID := map[string]*opNode{}
 	ops := make([]proto.Operator, n)
-	for j := 0; j < n; j++ {
+	if inPlace {
+		g.job, g.nodes = r.cur.job, r.cur.nodes
+		for j, nd := range g.nodes {
+			nd.cluster = g
+			ops[j] = nd
+		}
+		r.res.Count("redeploys_in_place", 1)
+	}
+	for j := 0; j < n && !inPlace; j++ {
 		r.serial++
 		id := fmt.Sprintf("g%do%d-%03d", len(r.gens)+1, j, r.serial)
 		nd := &opNode{id: id, h: &refHandler{}, done: make(chan error, 1), cluster: g}
@@ -480,6 +491,15 @@ func (r *run) deploy(step int, n int, regime string, st mbt.Step) bool {
 			Clock:         clocks.NewFrozenClock(),
 			EventBatching: batching.EventBatcherParams{MaxSize: 1, Timer: &opkit.Timer{}},
 			NeighborOperatorFactory: func(senderID string, node *jobpb.NodeIdentity) proto.Operator {
+				if r.in.CfgBool("GCInDeploy", false) {
+					// a garbage collection in the middle of HandleDeploy (the factory is called from there): whatever the
+					// operator no longer references at this point is collected and its cleanups run
+					for i := 0; i < 2; i++ {
+						runtime.GC()
+						time.Sleep(2 * time.Millisecond)
+					}
+					r.res.Count("gcs_inside_deploy", 1)
+				}
 				return byID[node.Id]
 			}})
 		byID[id] = nd
